@@ -214,7 +214,7 @@ pub fn property() -> Property {
     jobs.push(
         job(
             "Identifier/random",
-            100_000,
+            300_000,
             1_000_000,
             || strat((path_strategy(), path_strategy(), path_strategy(), proptest::collection::vec(prop_oneof![3 => 0u8..5, 1 => any::<u8>()], 1..4), any::<u8>(), any::<u8>()).prop_map(|(a, b, c, markers, share_b, share_c)| IdCase { a, b, c, markers, share_b, share_c })),
             |t: &IdCase, st: &mut Stats| {
